@@ -96,9 +96,9 @@ def validate(tier):
     return bad == 0, f"pure-Python csv model vs C _csv reader on {n} strings (all strings <= 5 chars over the bound alphabet): {bad} mismatches"
 
 
-def mk(nrows, sep_name, maxlen):
+def mk(nrows, sep_name, maxlen, small=False, ncols=2):
     sep = {"comma": ",", "tab": "\t"}[sep_name]
-    alphabet = "a1" + sep + '" '
+    alphabet = ("a" + sep + '"') if small else ("a1" + sep + '" ')
 
     def check(c00: str, c01: str, c10: str, c11: str) -> bool:
         """
@@ -109,24 +109,24 @@ def mk(nrows, sep_name, maxlen):
         from cogent3.format.table import separator_format
 
         _ = (maxlen, alphabet)
-        rows = [[c00, c01], [c10, c11]][:nrows]
-        if any(r == ["", ""] for r in rows):
+        rows = [[c00, c01][:ncols], [c10, c11][:ncols]][:nrows]
+        if any(all(c == "" for c in r) for r in rows):
             return True  # a row of only empty cells is an empty line for every csv reader
-        text = separator_format(["h1", "h2"], [list(r) for r in rows], sep=sep)
+        text = separator_format(["h1", "h2"][:ncols], [list(r) for r in rows], sep=sep)
         if W.PLAIN:
             got = list(csv.reader(io.StringIO(text), dialect="excel", delimiter=sep))
         else:
             got = csv_model(text, sep)
         if not W.reach("end"):
             return False
-        return got == [["h1", "h2"]] + rows
+        return got == [["h1", "h2"][:ncols]] + rows
 
     return check
 
 
 ENCODED = [("src/cogent3/format/table.py", ["separator_format"])]
 BOUNDS = {
-    "quick": ["1 row x 2 cells and 2 rows x 2 cells of <= 1 character (thorough: 1 row x 2 cells of <= 2 characters) over {a, 1, delimiter, double quote, space}, empty cells included; delimiter comma and tab; header fixed; no title / legend"],
+    "quick": ["1 row x 2 cells and 2 rows x 2 cells of <= 1 character; 1 row x 1 cell of <= 2 characters (thorough: <= 3, and 1 row x 2 cells of <= 2 characters); alphabet = {a, 1, delimiter, double quote, space}, empty cells included; delimiter comma and tab; header fixed; no title / legend"],
     "thorough": ["as quick, plus 1 row x 2 cells of <= 3 characters and 2 rows x 2 cells of <= 2 characters as OPTIONAL obligations (hours; reported, not counted, if CrossHair does not exhaust)"],
 }
 ASSUMPTIONS = [
@@ -152,6 +152,11 @@ def obligations(tier):
         if T:
             obs.append(Ob(f"roundtrip/{sep}/1x2/len2", __name__, "mk", {"nrows": 1, "sep_name": sep, "maxlen": 2}, timeout=3600, group="csv"))
         obs.append(Ob(f"roundtrip/{sep}/1x2/len1", __name__, "mk", {"nrows": 1, "sep_name": sep, "maxlen": 1}, timeout=900, group="csv"))
+        # two-character cells over the three characters that matter to quoting (letter, delimiter, quote)
+        # longer cells in a single column (quoting decisions are per cell)
+        obs.append(Ob(f"roundtrip/{sep}/1x1/len2", __name__, "mk", {"nrows": 1, "sep_name": sep, "maxlen": 2, "ncols": 1}, timeout=900, group="csv"))
+        if T:
+            obs.append(Ob(f"roundtrip/{sep}/1x1/len3", __name__, "mk", {"nrows": 1, "sep_name": sep, "maxlen": 3, "ncols": 1}, timeout=3600, group="csv"))
         obs.append(Ob(f"roundtrip/{sep}/2x2/len1", __name__, "mk", {"nrows": 2, "sep_name": sep, "maxlen": 1}, timeout=1800, group="csv"))
     return obs
 
